@@ -12,6 +12,8 @@ Decided here are clauses whose truth is in the shape of the code and that are ne
  R2 error length == 1 + floor(bp per texel)
  R3 orientation: a fused overlap result is reversed iff its bait is on the minus strand
  R4 order: lookup results are kept in Pretext order and fused in that order (append at the end)
+ R5 a terminal row overlapping the bait by at least the error length is never discarded by trim_large_overhangs
+ (R1 also: fragment_start_if_trimmed agrees with the start trim_fragment gives — sibling agreement of what-if and do)
 """
 
 from __future__ import annotations
@@ -201,6 +203,21 @@ def run(repo: Repo, L: Ledger, tier: str):
                 ]
             try:
                 keys = [order_key(k, strand, bs, be, assumptions) for k, bs, be in owners]
+                # the sort key is the start the contig piece would get if trimmed on both sides (sibling agreement of
+                # fragment_start_if_trimmed with trim_fragment): otherwise the pieces are processed in the wrong order
+                agree = True
+                for (k, bs, be), key in zip(owners, keys):
+                    s_trim, _ = piece(k, strand, bs, be, (False, False), assumptions)
+                    if not (key - s_trim).is_zero():
+                        agree = False
+                        L.fail(
+                            "R1", f"{fsit.short}[{k} of result, strand {'+' if strand == 1 else '-'}]",
+                            f"what-if start {key} differs from the start {s_trim} that trim_fragment gives the same contig in the same result (one of the two is wrong): the owners of a shared contig are "
+                            "ordered by a position their pieces do not have, the first/last-piece keep flags go to the wrong owners and the cut QC raises on a map PretextView can produce",
+                            fsit.loc(), witness={"owner holds the contig at its": k, "strand": strand},
+                        )
+                if agree:
+                    L.ok("R1", f"{fsit.short}[{n_owners} owners, strand {'+' if strand == 1 else '-'}]", "what-if start == trimmed start for every owner", fsit.loc())
                 # ascending order of the sort keys
                 idx = list(range(len(owners)))
                 ordered = []
@@ -233,6 +250,49 @@ def run(repo: Repo, L: Ledger, tier: str):
                 why + f"; pieces (in the order cut_fragments processes the owners): {[f'{a}..{b}' for a, b in pieces]}",
                 cut.loc(), witness={"input": "one contig on the given strand in scaffold S", "map": "S cut at a texel boundary inside the contig into Pretext pieces", "pieces": [f"{a}..{b}" for a, b in pieces]},
             )
+
+    # ---- R5: a terminal row overlapping the bait by at least the error length is never discarded
+    # (a legal piece is >= 2 texels >= error length long; inside one contig its only row overlaps it by its whole length)
+    tlo = ovr.methods.get("trim_large_overhangs")
+    if tlo is None:
+        raise AnalysisError("anchor OverlapResult.trim_large_overhangs vanished")
+    L.rule("R5", "terminal row with bait overlap >= error length is never discarded")
+    err = Lin.atom("err")
+    OS, OE = Lin.atom("start_row_overlap"), Lin.atom("end_row_overlap")
+
+    class _Trim(SymExec):
+        def attr_hook(self_, st, obj, attr, node):
+            if isinstance(obj, Sym) and obj.name == "self":
+                if attr == "start_row_bait_overlap":
+                    return OS
+                if attr == "end_row_bait_overlap":
+                    return OE
+            return NotImplemented
+
+    for pn in ("start_row_bait_overlap", "end_row_bait_overlap"):
+        if repo.find_method(ovr, pn) is None:
+            raise AnalysisError(f"anchor OverlapResult.{pn} vanished")
+    ex5 = _Trim(repo, loop_iters=(0, 1, 2))
+    st5 = State()
+    st5.heap[("self", "rows")] = GhostList("rows")
+    st5.heap[("self", "start")] = Lin.atom("S")
+    st5.heap[("self", "end")] = Lin.atom("E")
+    st5.heap[("self", "bait")] = Sym("bait", frag)
+    st5.pc.append(B("le", err - OS))
+    st5.pc.append(B("le", err - OE))
+    st5.pc.append(B("le", Lin.const(1) - err))
+    tps = tlo.params()
+    fin5 = ex5.run_function(tlo, st5, {tps[0]: Sym("self", ovr), tps[1]: err})
+    if not fin5:
+        raise AnalysisError("trim_large_overhangs: no completing path when both terminal rows overlap the bait by >= error length")
+    bad5 = [r for r in fin5 if r.heap[("self", "rows")].log]
+    L.check(
+        not bad5, "R5", tlo.short,
+        f"no row discarded on all {len(fin5)} feasible paths when both terminal overlaps are >= error length",
+        "a terminal row that overlaps the bait by a full error length (e.g. the only row of a legal two-texel piece cut out of the middle of a contig, at 1 <= bp/texel < 1.5) is discarded: the piece vanishes and the cut QC raises"
+        + (f" ({bad5[0].path.describe()})" if bad5 and bad5[0].path else ""),
+        tlo.loc(), witness={"bp_per_texel": 1.2, "piece": "2 texels inside one contig", "overlap": "== error length == 2"},
+    )
 
     # ---- R2
     el = ba.methods.get("error_length")
